@@ -184,17 +184,23 @@ def _timestamp(ctx, rep, ci, key, where):
     prog = ctx.prog
     rd = prog.func("sensor.read_datetime")
     en = prog.func("sensor.encode_datetime")
-    order = []
-    for st in rd.node.body:
-        if isinstance(st, ast.Assign) and isinstance(st.targets[0], ast.Name) and any(isinstance(x, ast.Call) and (call_chain(x) or ("",))[-1] == "read" for x in ast.walk(st.value)):
-            order.append(st.targets[0].id)
-    year_off = None
-    for st in rd.node.body:
-        if isinstance(st, ast.Assign) and norm(st.targets[0]) == "year" and isinstance(st.value, ast.BinOp) and isinstance(st.value.op, ast.Add):
-            try:
-                year_off = prog.consteval(st.value.left, rd.module)
-            except NotConst:
-                year_off = None
+    # decode side, from the decoder summary: datetime(field_j = byte[d_j] + off_j)
+    from ..decoders import lin_of, Decoders
+    dec = ctx.memo("decoders", lambda: Decoders(ctx.prog, ctx.res))
+    fields = ("year", "month", "day", "hour", "minute", "second")
+    by_byte: Dict[int, Tuple[str, int]] = {}
+    for c in dec.helper_cases(rd):
+        v = c.value
+        if c.outcome != "return" or v is None or v[0] != "obj" or v[1:3] != ("call", "datetime") or len(v[3]) != 6:
+            continue
+        for f, k in zip(fields, v[3]):
+            l = lin_of(k[1]) if k[0] == "num" else None
+            if l is not None and l[0][0] == "read" and l[0][3] == 1 and l[1] == 1:
+                by_byte[l[0][2]] = (f, int(l[2]))
+    order = [by_byte[i][0] for i in sorted(by_byte)] if sorted(by_byte) == list(range(len(by_byte))) else []
+    year_off = next((o for f, o in by_byte.values() if f == "year"), None)
+    if any(o != 0 for f, o in by_byte.values() if f != "year"):
+        year_off = None
     lst = None
     for n in ast.walk(en.node):
         if isinstance(n, ast.Call) and norm(n.func) == "bytes" and n.args and isinstance(n.args[0], ast.List):
@@ -299,8 +305,8 @@ def _routing_consistent(ctx: Ctx, fn: FuncInfo, p) -> bool:
     for ev in p.events:
         if ev.kind == "test" and isinstance(ev.node, ast.Call) and (call_chain(ev.node) or ("",))[-1] == "_is_modbus_setting":
             target = ctx.prog.find_method(fn.cls, "_is_modbus_setting")
-            pure = target is not None and len(target.node.body) == 1 and isinstance(target.node.body[0], ast.Return) \
-                and not any(isinstance(x, ast.Call) for x in ast.walk(target.node.body[0]))
+            body = [s_ for s_ in target.node.body if not (isinstance(s_, ast.Expr) and isinstance(s_.value, ast.Constant))] if target is not None else []
+            pure = len(body) == 1 and isinstance(body[0], ast.Return) and not any(isinstance(x, ast.Call) for x in ast.walk(body[0]))
             if not pure:
                 return True
             k = norm(ev.node)
